@@ -82,6 +82,8 @@ def program_scripts(tier):
     add('GY = Y + {aa} * {a} + <ee> - <e>\nY = GY[-1] + YY + Y_[1]', 'names')
     add('C = PC[-1] + C[-1] + CC[-1] + t + index + solved_values', 'names')
     add('X1 = X11 + X1[-1] + X[1] + {X_1}', 'names')
+    # names that begin with an underscore (variable, parameter, error, left-hand side) and a one-character name
+    add('Y = _T[-1] + {_a} * X + <_e> + _\n_Z = Y[-1] + _T + _Z[-1] * {_a}', 'names')
     # offsets of ten and more; left-hand sides with a lead or a lag (the assignment lands in another period than t)
     add('Y = S[-12] + 0.5 * Y[-10] + X[11]', 'offsets')
     add('Y = 0.5 * X + <e>[-2] + <u>[1]', 'offsets')           # the deepest lag / furthest lead sits on error terms only
